@@ -13,6 +13,21 @@ def season_crop(ctx, season):
     return ctx.model._param_struct.Seasonal_Crop_List[season]
 
 
+def configured(ctx, key, fallback):
+    """A crop parameter as the user configured it: keyword override, else the documented crop table, else `fallback`."""
+    try:
+        from aquacrop.entities.crops.crop_params import crop_params as _tbl
+
+        cs = ctx.spec["crop"]
+        kw = cs.get("kw") or {}
+        if key in kw:
+            return float(kw[key])
+        v = _tbl.get(cs["name"], {}).get(key)
+        return float(v) if v is not None else float(fallback)
+    except Exception:  # noqa: BLE001
+        return float(fallback)
+
+
 class _Envelope:
     """Season crop copy for calendar facts, configured crop for the envelope parameters."""
 
@@ -36,7 +51,30 @@ class C05Envelope(Monitor):
         # per-season copies (which a defect may have altered)
         from .. import spec as S
 
-        self.cfg = S.make_crop(ctx.spec["crop"])
+        fresh = S.make_crop(ctx.spec["crop"])
+        # the envelope parameters as CONFIGURED: the user's keyword override, else the documented crop table (a fresh Crop object only
+        # where neither has the key - the constructor is code under test too)
+        try:
+            from aquacrop.entities.crops.crop_params import crop_params as _tbl
+
+            cs = ctx.spec["crop"]
+            kw = dict(cs.get("kw") or {})
+            if cs.get("scale"):
+                kw = {**S.scaled_crop_kwargs(cs["name"], cs["scale"]), **kw}
+            if cs.get("gddscale"):
+                kw = {**S.scaled_gdd_kwargs(cs["name"], cs["gddscale"]), **kw}
+            table = _tbl.get(cs["name"], {})
+
+            class _Cfg:
+                pass
+
+            cfg = _Cfg()
+            for k in _Envelope.ENV:
+                v = kw.get(k, table.get(k, getattr(fresh, k, None)))
+                setattr(cfg, k, float(v) if v is not None else None)
+            self.cfg = cfg
+        except Exception:  # noqa: BLE001
+            self.cfg = fresh
 
     def on_transition(self, ctx, pre, post):
         g = post.growth
@@ -179,15 +217,16 @@ class C06Yields(Monitor):
                 yr = _pd.Timestamp(pre.date).year if dap == 1 else _pd.Timestamp(m._clock_struct.planting_dates[season]).year
                 conc = configured_co2(ctx.spec.get("co2"), yr, _S.parse_date(ctx.spec["start"]).year)
                 co2ref = float((ctx.spec.get("co2") or {}).get("ref_concentration", 369.41))   # the configured reference (documented default 369.41)
-                self.fco2_ref = ref_fco2(conc, co2ref, float(crop.bsted), float(crop.bface), float(crop.fsink), float(crop.WP))
+                self.fco2_ref = ref_fco2(conc, co2ref, configured(ctx, "bsted", crop.bsted), configured(ctx, "bface", crop.bface), configured(ctx, "fsink", crop.fsink), configured(ctx, "WP", crop.WP))
                 if abs(self.fco2_ref - float(crop.fCO2)) > 1e-12:
                     ctx.violate("co2-adjustment-of-the-planting-year", t, observed={"fCO2": float(crop.fCO2)}, expected={"fCO2": self.fco2_ref, "ppm": conc, "planting_year": yr}, season=season)
                 if conc > co2ref:
                     ctx.hit("co2_above_reference_season")
-            wp = float(crop.WP) * float(self.fco2_ref)
+            wp = configured(ctx, "WP", crop.WP) * float(self.fco2_ref)
+            wpy = configured(ctx, "WPy", crop.WPy)
             hi_b = wp * tr / et0
-            lo_b = hi_b * min(1.0, float(crop.WPy) / 100.0)
-            hi_b = hi_b * max(1.0, float(crop.WPy) / 100.0)
+            lo_b = hi_b * min(1.0, wpy / 100.0)
+            hi_b = hi_b * max(1.0, wpy / 100.0)
             tol = 1e-9 * max(1.0, abs(b))
             if not (lo_b - tol <= db <= hi_b + tol):
                 ctx.violate(
